@@ -93,4 +93,34 @@ def execute {I K R : Type} [DecidableEq K] (maxChecks : Nat) (key : I → K) (ch
       let rs := runGroups check cancelled (permRun gs)
       .ok { results := fanOut rs (permFan gs), duplicateCheckCount := items.length - gs.length }
 
+/-! ### the return value of the pool task
+
+`concurrency.NewPool` builds the pool `WithCancelOnError`: a task function that returns a non-nil error
+cancels the context every other task runs under; a task that then starts stores `{Err: ctx.Err()}`.
+The task function of `Execute` returns `nil` on every path (`Gen.Batch.poolTaskReturns`) — the error of
+a check is stored in the item's outcome, never handed to the pool.  `retErr r` makes that explicit:
+"after storing the outcome of a check that answered `r`, the task returns a non-nil error". -/
+
+/-- the pool, tasks in schedule order; `dead` = an earlier task returned an error (pool context
+cancelled); `cancelled k` = the REQUEST context was already done when the task for `k` started -/
+def runPool {I K R : Type} (check : I → R) (retErr : R → Bool) (cancelled : K → Bool) :
+    Bool → List (Group I K) → List (K × Outcome R)
+  | _, [] => []
+  | dead, g :: gs =>
+    if dead || cancelled g.key then (g.key, .cancelled) :: runPool check retErr cancelled dead gs   -- `return nil`
+    else (g.key, .done (check g.rep)) :: runPool check retErr cancelled (retErr (check g.rep)) gs
+
+/-- `Execute` with the return value of the task explicit -/
+def executeP {I K R : Type} [DecidableEq K] (maxChecks : Nat) (key : I → K) (check : I → R) (retErr : R → Bool)
+    (cancelled : K → Bool) (permRun permFan : List (Group I K) → List (Group I K)) (items : List (Item I)) :
+    Except Err (Result R) :=
+  if items.length > maxChecks then .error .tooMany
+  else if items.length = 0 then .error .noChecks
+  else match validateIds [] 0 items with
+    | some e => .error e
+    | none =>
+      let gs := groupItems key items
+      let rs := runPool check retErr cancelled false (permRun gs)
+      .ok { results := fanOut rs (permFan gs), duplicateCheckCount := items.length - gs.length }
+
 end OpenFGAVerif.Model.Batch
